@@ -406,7 +406,34 @@ def rule_capture_snapshot(ctx) -> None:
     ctx.floor("C10.STAGE", "capture sites (buffer.write on the active mux)", n_sites, 2)
 
 
+def rule_retry_admitted(ctx) -> None:
+    """the driver's answer to back-pressure is drain + stage the same record once more, unguarded (C10.STAGE checks that shape).
+    That retry must succeed for every record and every limit >= 1 byte: the stager may signal back-pressure only when there is
+    something to drain - the raise is dominated by a test that the buffer is non-empty - and drain_sorted leaves it empty."""
+    IOL = "clematis.engine.util.io_logging"
+    st = ctx.func(IOL + ":LogStager.stage")
+    cfg = ctx.cfg(st)
+    raises = [n for n in cfg.nodes if n.kind == "stmt" and isinstance(n.ast, ast.Raise) and any(const_str(x) == "LOG_STAGING_BACKPRESSURE" for x in ast.walk(n.ast))]
+    ctx.floor("C10.STAGE", "back-pressure raises in LogStager.stage", len(raises), 1)
+    # the buffer attribute: the list the record is appended to
+    bufs = {src(c.func.value) for n in cfg.nodes for c in node_calls(n) if call_tail(c) == "append" and src(c.func.value).startswith("self.")}
+    dr = ctx.func(IOL + ":LogStager.drain_sorted")
+    emptied = {src(t) for x in walk_no_defs(dr.node) if isinstance(x, ast.Assign) and isinstance(x.value, (ast.List,)) and not x.value.elts for t in x.targets}
+    emptied |= {src(c.func.value) for x in walk_no_defs(dr.node) if isinstance(x, ast.Call) and call_tail(x) == "clear" for c in [x]}
+    ctx.check(bool(bufs) and bufs <= emptied, "C10.STAGE", f"{dr.qual}/drain-empties-buffer", dr.loc(), f"drain_sorted leaves {sorted(bufs)} empty", f"drain_sorted does not empty {sorted(bufs - emptied)}")
+    for n in raises:
+        ok = False
+        for t, p in cfg.facts(n):
+            if p and (t in bufs or any(t == f"len({b}) > 0" or t == f"len({b}) >= 1" for b in bufs)):
+                ok = True
+        ctx.check(ok, "C10.STAGE", f"{st.qual}/backpressure-only-when-drainable", st.loc(n.ast),
+                  "back-pressure is raised only where the buffer is known non-empty: after a drain the retried record is always admitted",
+                  "back-pressure can be raised with an empty buffer: a record whose size estimate alone exceeds the byte limit is refused again on the driver's retry after the drain, "
+                  "and the RuntimeError leaves the batch driver - the outcome depends on the staging limit")
+
+
 def run(ctx) -> None:
+    rule_retry_admitted(ctx)
     rule_capture_snapshot(ctx)
     rule_ro(ctx)
     rule_dry(ctx)
